@@ -18,6 +18,8 @@ theorem about the regenerated `GenR.Convert.grid2geo` and `GenR.Convert.geo2grid
 * `sphere_inverse_of_forward` — that closed form applied to the forward's `(ξ′, η′)(φ, ω)`
   (`C01.xi1`, `C01.eta1`, which `C01.geo2grid_sphere` shows are what `geo2grid` computes on the sphere)
   returns `(φ, ω)` exactly, for every `|φ| < 90°`, `|ω| < 90°`;
+* `sphere_forward_of_inverse` — and conversely the forward's pair applied to the closed-form inverse of `(ξ, η)` returns `(ξ, η)` for
+  every `|ξ| < π/2` (grid → geographic → grid closes exactly before the 0.1 mm rounding);
 * `sphere_round_trip` — so `grid2geo` applied to the un-rounded spherical image
   `(k₀Rη′ + FE, k₀Rξ′ (+FN))` of `(lat, lon)` returns `lat` and `lon` rounded to 11 decimals: in exact
   arithmetic the only round-trip error on a sphere is the two output roundings.
@@ -88,6 +90,44 @@ theorem sphere_inverse_of_forward (φ ω : ℝ) (hφ : |φ| < Real.pi / 2) (hω 
     Real.arctan (Real.sinh (C01.eta1 φ ω) / Real.cos (C01.xi1 φ ω)) = ω := by
   obtain ⟨_, b, c⟩ := gs_inverse φ ω hφ hω
   exact ⟨b, c⟩
+
+/-- the forward's Gauss–Schreiber pair undoes the closed-form inverse, exactly (the other direction of the round trip):
+for `|ξ| < π/2` (northings short of a quarter of the sphere's circumference) -/
+theorem sphere_forward_of_inverse (ξ η : ℝ) (hξ : |ξ| < Real.pi / 2) :
+    C01.xi1 (Real.arctan (tPrime ξ η)) (Real.arctan (Real.sinh η / Real.cos ξ)) = ξ ∧
+    C01.eta1 (Real.arctan (tPrime ξ η)) (Real.arctan (Real.sinh η / Real.cos ξ)) = η := by
+  obtain ⟨h1, h2⟩ := abs_lt.mp hξ
+  have hc : 0 < Real.cos ξ := Real.cos_pos_of_mem_Ioo ⟨h1, h2⟩
+  have hD2 : 0 < Real.sinh η ^ 2 + Real.cos ξ ^ 2 := by positivity
+  set D := Real.sqrt (Real.sinh η ^ 2 + Real.cos ξ ^ 2) with hD
+  have hDpos : 0 < D := Real.sqrt_pos.mpr hD2
+  have hDsq : D ^ 2 = Real.sinh η ^ 2 + Real.cos ξ ^ 2 := Real.sq_sqrt hD2.le
+  have hT : tPrime ξ η = Real.sin ξ / D := rfl
+  have hsq : Real.sqrt (1 + (Real.sinh η / Real.cos ξ) ^ 2) = D / Real.cos ξ := by
+    rw [show 1 + (Real.sinh η / Real.cos ξ) ^ 2 = (D / Real.cos ξ) ^ 2 by
+      rw [div_pow, div_pow, hDsq]; field_simp; ring]
+    exact Real.sqrt_sq (div_pos hDpos hc).le
+  have hcosω : Real.cos (Real.arctan (Real.sinh η / Real.cos ξ)) = Real.cos ξ / D := by
+    rw [Real.cos_arctan, hsq]; field_simp
+  have hsinω : Real.sin (Real.arctan (Real.sinh η / Real.cos ξ)) = Real.sinh η / D := by
+    rw [Real.sin_arctan, hsq]; field_simp
+  have htan : Real.tan (Real.arctan (tPrime ξ η)) = Real.sin ξ / D := by rw [Real.tan_arctan, hT]
+  have hss : Real.sin ξ ^ 2 + Real.cos ξ ^ 2 = 1 := Real.sin_sq_add_cos_sq ξ
+  constructor
+  · unfold C01.xi1
+    rw [htan, hcosω, show Real.sin ξ / D / (Real.cos ξ / D) = Real.tan ξ by
+      rw [Real.tan_eq_sin_div_cos]; field_simp]
+    exact Real.arctan_tan h1 h2
+  · have hx : C01.eta1x (Real.arctan (tPrime ξ η)) (Real.arctan (Real.sinh η / Real.cos ξ)) = Real.sinh η := by
+      unfold C01.eta1x
+      rw [htan, hcosω, hsinω, show (Real.sin ξ / D) ^ 2 + (Real.cos ξ / D) ^ 2 = (1 / D) ^ 2 by
+        rw [div_pow, div_pow, div_pow, one_pow, ← add_div, hss]]
+      rw [Real.sqrt_sq (by positivity)]; field_simp
+    unfold C01.eta1
+    rw [hx, show Real.sqrt (1 + Real.sinh η ^ 2) = Real.cosh η by
+      rw [show 1 + Real.sinh η ^ 2 = Real.cosh η ^ 2 by have := Real.cosh_sq η; linarith]
+      exact Real.sqrt_sq (Real.cosh_pos η).le]
+    rw [Real.sinh_add_cosh, Real.log_exp]
 
 theorem tPrime_neg (a b : ℝ) : tPrime (-a) b = -tPrime a b := by
   unfold tPrime
